@@ -78,10 +78,10 @@ Init == /\ src \in [Sources -> {0, 2}] /\ srcw = [i \in Sources |-> 1]
         /\ link \in [PNames -> UNION {RefsFor(n) : n \in PNames} \cup {NoRef}]
         /\ \A n \in PNames : link[n] = NoRef \/ (link[n] \in RefsFor(n) /\ Valid(n, Resolve(link[n], Env(src, srcw))))
         /\ link["q"] = NoRef \/ link["p"] # NoRef      \* (symmetry: q is linked only if p is)
-        /\ ("const" \notin Kinds => link["k"] = NoRef)
+        /\ ("const" \notin Kinds \/ "ro" \in Kinds => link["k"] = NoRef)        \* ("ro": k is readonly -- not even the constructor sets it)
         /\ val = [n \in PNames |-> IF link[n] = NoRef THEN (IF n = "r" THEN 107 ELSE 1) ELSE Resolve(link[n], Env(src, srcw))]
         /\ ctx = <<>> /\ nops = 0
-        /\ hist = IF RecordHist THEN <<[act |-> [name |-> "init", src |-> src, srcw |-> srcw, link |-> link, clamp |-> Clamp], res |-> "ok", obs |-> Obs(val, link), kf |-> {}]>> ELSE <<>>
+        /\ hist = IF RecordHist THEN <<[act |-> [name |-> "init", src |-> src, srcw |-> srcw, link |-> link, clamp |-> Clamp, ro |-> ("ro" \in Kinds)], res |-> "ok", obs |-> Obs(val, link), kf |-> {}]>> ELSE <<>>
 
 Step == nops < MaxOps /\ nops' = nops + 1
 
@@ -106,26 +106,32 @@ SetSource(i, v0, w, order) ==
         /\ UNCHANGED <<link, ctx>>
         /\ Rec("source", [i |-> i, v |-> v0, w |-> w, both |-> (v # src[i] /\ w # srcw[i]), order |-> order], IF bad = {} THEN "ok" ELSE "invalid", val', link, {})
 
+\* via: the assignment is made directly ("direct"), or by a watcher of the other scalar parameter that runs because that
+\* parameter is triggered ("trig": target.param.trigger(other); an assignment made while watchers are dispatched is an
+\* assignment like any other)
+ViaOK(n, via) == via = "direct" \/ (via = "trig" /\ "trigger" \in Acts /\ n \in Scalars /\ ctx = <<>>)
+
 \* the target parameter n is assigned a reference
-SetRef(n, ref) ==
-  /\ "ref" \in Acts /\ Step /\ ref \in RefsFor(n)
+SetRef(n, ref, via) ==
+  /\ "ref" \in Acts /\ Step /\ ref \in RefsFor(n) /\ ViaOK(n, via)
   \* (a constant parameter may be re-assigned the identical object: a reference that currently resolves to it is left out)
-  /\ (n = "k" => Resolve(ref, Env(src, srcw)) # val["k"])
+  \* (a readonly parameter refuses that one too)
+  /\ (n = "k" /\ "ro" \notin Kinds => Resolve(ref, Env(src, srcw)) # val["k"])
   /\ IF n # "k" /\ Valid(n, Resolve(ref, Env(src, srcw)))
      THEN /\ link' = [link EXCEPT ![n] = ref] /\ val' = [val EXCEPT ![n] = Resolve(ref, Env(src, srcw))]
-          /\ Rec("ref", [n |-> n, ref |-> ref], "ok", val', link', {})
+          /\ Rec("ref", [n |-> n, ref |-> ref, via |-> via], "ok", val', link', {})
      ELSE /\ UNCHANGED <<link, val>>
-          /\ Rec("ref", [n |-> n, ref |-> ref], "rejected", val, link, {"KF_RejectedRefRelinks"})
+          /\ Rec("ref", [n |-> n, ref |-> ref, via |-> via], "rejected", val, link, {"KF_RejectedRefRelinks"})
   /\ UNCHANGED <<src, srcw, ctx>>
 
 \* the target parameter n is assigned a plain value (9 is invalid for p and q)
-SetPlain(n, v) ==
-  /\ "plain" \in Acts /\ Step /\ (n = "k" => ("const" \in Kinds /\ v # val["k"]))
+SetPlain(n, v, via) ==
+  /\ "plain" \in Acts /\ Step /\ ViaOK(n, via) /\ (n = "k" => ("const" \in Kinds /\ ("ro" \in Kinds \/ v # val["k"])))
   /\ IF n # "k" /\ Valid(n, v)
      THEN /\ link' = [link EXCEPT ![n] = NoRef] /\ val' = [val EXCEPT ![n] = v]
-          /\ Rec("plain", [n |-> n, v |-> v], "ok", val', link', IF link[n] # NoRef THEN {"KF_OverrideLeavesWatcher"} ELSE {})
+          /\ Rec("plain", [n |-> n, v |-> v, via |-> via], "ok", val', link', IF link[n] # NoRef THEN {"KF_OverrideLeavesWatcher"} ELSE {})
      ELSE /\ UNCHANGED <<link, val>>
-          /\ Rec("plain", [n |-> n, v |-> v], "rejected", val, link, IF link[n] # NoRef THEN {"KF_RejectedPlainUnlinks"} ELSE {})
+          /\ Rec("plain", [n |-> n, v |-> v, via |-> via], "rejected", val, link, IF link[n] # NoRef THEN {"KF_RejectedPlainUnlinks"} ELSE {})
   /\ UNCHANGED <<src, srcw, ctx>>
 
 \* the constant parameter k is assigned a value that is equal to, but not the same object as, the one it holds
@@ -158,8 +164,8 @@ ExitUpd ==
      /\ Rec("exitupd", <<>>, "ok", val', link', {})
 
 Next == \/ \E i \in Sources, v \in {0, 2, 4, 5, NoneV}, w \in {1, 3}, o \in {"vw", "wv"} : SetSource(i, v, w, o)
-        \/ \E n \in PNames : \E ref \in RefsFor(n) : SetRef(n, ref)
-        \/ \E n \in PNames : \E v \in (IF n = "r" THEN {107} ELSE {3, 9}) : SetPlain(n, v)
+        \/ \E n \in PNames, via \in {"direct", "trig"} : \E ref \in RefsFor(n) : SetRef(n, ref, via)
+        \/ \E n \in PNames : \E v \in (IF n = "r" THEN {107} ELSE IF n = "k" /\ "ro" \in Kinds THEN {1, 3} ELSE {3, 9}) : \E via \in {"direct", "trig"} : SetPlain(n, v, via)
         \/ \E n \in Scalars, form \in {"kw", "dict"} : EnterUpd(n, 3, form)
         \/ ExitUpd \/ SetPlainEq \/ \E n \in Scalars : TriggerT(n)
 Spec == Init /\ [][Next]_vars
